@@ -34,7 +34,7 @@ func plainLex(src string, tmpl [2]string) string {
 // TestProp_Concurrent: the tokens of a document are a function of the document, also while other goroutines lex others
 func TestProp_Concurrent(t *testing.T) {
 	ev.Describe("concurrent", "4-12 generated documents (plain or Go-template mode, random case), each lexed 200 times over first one after the other and then by as many goroutines at once (3 rounds behind a barrier); oracle: every goroutine gets the tokens, Text(), AttrVal() and HasTemplate() that the same document gives alone; non-trivial = >= 4 goroutines")
-	ev.Check(t, 120, func(t *rapid.T) {
+	ev.Check(t, 60, func(t *rapid.T) {
 		n := rapid.IntRange(4, 12).Draw(t, "goroutines")
 		srcs := make([]string, n)
 		tmpls := make([][2]string, n)
